@@ -76,6 +76,15 @@ class Custom2005(exc.JsonRpcError):
     message = 'custom error 2005'
 
 
+class QuotaError(exc.JsonRpcError):
+    """an application error with a constructor of its own (not the (code, message, data) one); it has no class-level code, so it is
+    not a registered class - methods raise it, callers see code 2007"""
+
+    def __init__(self, limit: int):
+        super().__init__(code=2007, message='quota exceeded', data={'limit': limit})
+        self.limit = limit
+
+
 class Custom2006(exc.JsonRpcError):
     code = 2006
     message = 'custom error 2006'
@@ -98,7 +107,7 @@ BY_NAME: Dict[str, Type[exc.JsonRpcError]] = {
     'JsonRpcError': exc.JsonRpcError, 'ParseError': exc.ParseError, 'InvalidRequestError': exc.InvalidRequestError,
     'MethodNotFoundError': exc.MethodNotFoundError, 'InvalidParamsError': exc.InvalidParamsError,
     'InternalError': exc.InternalError, 'ServerError': exc.ServerError, 'Custom2001': Custom2001, 'Custom2002': Custom2002,
-    'Custom2003': Custom2003, 'Custom2004': Custom2004, 'Custom2005': Custom2005, 'Custom2006Refined': Custom2006Refined, 'SrvRange': SrvRange, 'PlainBase': PlainBase, 'CodedBase': CodedBase, 'IndepBase': IndepBase,
+    'Custom2003': Custom2003, 'Custom2004': Custom2004, 'Custom2005': Custom2005, 'Custom2006Refined': Custom2006Refined, 'QuotaError': QuotaError, 'SrvRange': SrvRange, 'PlainBase': PlainBase, 'CodedBase': CodedBase, 'IndepBase': IndepBase,
     'IndepA': IndepA, 'ZeroCode': ZeroCode,
 }
 
